@@ -117,7 +117,9 @@ def dump(node, wp=False):
         return mk("spread", d(node.expression))
     if name == "NodeWhile":
         return mk("while", d(node.expression), d(node.block))
-    raise ValueError("unknown node class " + name)
+    # a node class the model has no counterpart for (added to the implementation after the model was written): the driver answers `bad-ast`
+    # for such a program, which the checks report as a broken correspondence — the property oracles still run on the implementation
+    return "(unknownnode " + s_(name) + ")"
 
 
 def dump_token(t):
